@@ -107,6 +107,8 @@ HISTORY = {
     "C03-12": "missed at first (C03 drove nuts::draw directly; NutsChain::draw, which installs the returned state, was only covered through C16's schema view): chain-level audit through the public API added (unconstrained_draw / gradient / logp of the returned position bit for bit, index 0 iff unmoved, under region faults of three kinds)",
     "C07-11": "C07's own check stays silent (its statement does not say WHICH acceptance statistic drives the late phase; with either one its clauses hold); caught with a failing input by C09, whose late-statistic clause it breaks",
     "C07-12": "caught as built (symmetric acceptance statistic NaN after a first-step divergence)",
+    "C06-11": "caught as built (flow transformation updated on the first draw of the final step-size window: boundary corpus of the flow presets)",
+    "C06-12": "caught as built (empty final window with jitter None: post-warmup step size is not the averaged one)",
 }
 
 
